@@ -1,6 +1,11 @@
-(* C16 — property theorems only. Each is closed by `exact` of a lemma proved in Proofs/. *)
-From JV Require Import Lib.Base Model.Graph Proofs.GraphProofs.
+(* C16 — property theorems only. Each is closed by `exact` of a lemma proved in Proofs/ (or by one kernel evaluation
+   for a literal witness).  `fx` ranges over the variants of the code: `nofix` = the pinned tree, `allfix` = after
+   fixes/C16-nested-target-order.patch and fixes/C16-source-under-group.patch (Model/LinkOrder.v, Record fixes). *)
+From JV Require Import Lib.Base Model.Graph Proofs.GraphProofs Spec.GraphSpec Proofs.C16BuildProofs
+                       Model.LinkOrder Spec.LinkSpec Proofs.C16LinkProofs Proofs.C16SmallSpace.
 From Coq Require Import Permutation.
+
+(* ==== 1. the topological sort ========================================================================================= *)
 
 (* The DFS of DirectedGraph.get_topological_order, for a graph with ANY number n of nodes and any
    successor lists with targets < n: it never runs out of fuel; when it answers with an order, that
@@ -18,3 +23,200 @@ Theorem C16_topo_sort_correct :
     end.
 Proof. exact topo_idx_correct. Qed.
 Print Assumptions C16_topo_sort_correct.
+
+(* The same for DirectedGraph as it is used: add_edge called for ANY list of labelled edges (first-seen node numbering,
+   duplicate-free adjacency lists), then get_topological_order.  Either an order that lists exactly the mentioned
+   nodes once, every edge forward, and then the edge list is acyclic; or a reported edge u --> v that closes a cycle. *)
+Theorem C16_topo_on_edge_lists :
+  forall es : list (str * str),
+    match topo (build es) with
+    | Order o => NoDup o /\ (forall x, In x o <-> In x (mentioned es)) /\
+                 (forall s t, In (s, t) es -> exists l1 l2, o = l1 ++ s :: l2 /\ In t l2) /\
+                 (forall s t, In (s, t) es -> ~ reach_es es t s)
+    | Cycle u v => In (u, v) es /\ reach_es es v u
+    | Broken => False
+    end.
+Proof. exact topo_build_correct. Qed.
+Print Assumptions C16_topo_on_edge_lists.
+
+(* ==== 2. the instantiation order respects every link =================================================================== *)
+
+(* For ANY components cs, ANY links ls (any key strings) and either variant of the code: if link_arguments accepted the
+   links (instantiation_order answers with an order o) then, inside the guard enclosing_ok, in the sequence in which
+   instantiate_classes walks through the components (depth sort, then ActionLink.reorder by o) the component cS of every
+   source of every link l stands strictly before every component cT whose dest encloses l's target key — the
+   component that constructs the object fed by l.  (cS <> cT follows: a sequence position is strictly earlier.) *)
+Theorem C16_sources_before_targets :
+  forall fx cs ls o l k cS cT,
+    inst_order fx cs ls = Order o ->
+    enclosing_ok fx cs ls = true ->
+    In l ls -> In k (l_srcs l) -> resolve_src cs k = Some cS ->
+    In cT cs -> matches (c_dest cT) (l_target l) = true ->
+    precedes (comp_sequence cs o) cS cT.
+Proof. exact sources_before_targets. Qed.
+Print Assumptions C16_sources_before_targets.
+
+(* without any guard: the order itself lists every link's source component before the link's target node *)
+Theorem C16_order_respects_links :
+  forall fx cs ls o l k cS,
+    inst_order fx cs ls = Order o -> In l ls -> In k (l_srcs l) -> resolve_src cs k = Some cS ->
+    edge_before o (c_dest cS, target_node l) = true.
+Proof. exact order_respects_links. Qed.
+Print Assumptions C16_order_respects_links.
+
+(* every component is instantiated exactly once: the sequence walked by instantiate_classes is a permutation of the
+   components, for any order *)
+Theorem C16_each_component_once :
+  forall cs order, Permutation (comp_sequence cs order) cs.
+Proof. exact comp_sequence_perm. Qed.
+Print Assumptions C16_each_component_once.
+
+(* ==== 3. cycles are rejected when the link is added ==================================================================== *)
+
+(* link_arguments called for ls one after the other: all calls succeed iff the link graph is acyclic after every
+   addition; otherwise exactly the first call that makes it cyclic raises. *)
+Theorem C16_links_accepted_iff_acyclic :
+  forall fx cs ls,
+    match add_links fx cs ls with
+    | None => forall n, 1 <= n <= length ls -> acyclic (link_edges fx cs (firstn n ls))
+    | Some k => k < length ls
+                /\ (forall n, 1 <= n <= k -> acyclic (link_edges fx cs (firstn n ls)))
+                /\ cyclic (link_edges fx cs (firstn (S k) ls))
+    end.
+Proof. exact add_links_spec. Qed.
+Print Assumptions C16_links_accepted_iff_acyclic.
+
+Theorem C16_cycle_rejected_at_link_time :
+  forall fx ds ls n,
+    1 <= n <= length ls -> cyclic (link_edges fx (components ds) (firstn n ls)) ->
+    exists k, k < n /\ run fx ds ls = (OLinkErr k, []).
+Proof. exact run_cycle_rejected. Qed.
+Print Assumptions C16_cycle_rejected_at_link_time.
+
+(* ==== 4. the whole statement on a finite space, decided by the kernel ================================================= *)
+
+(* Every layout of class groups / class-typed arguments (possibly nested two or three deep) constructing <= 3 objects,
+   and every arrangement of four flat class groups / class-typed arguments; every sequence of one or two links whose
+   source is any component (object or attribute), whose target is a parameter of any constructed object, with and without
+   compute_fn — cyclic ones included.  Inside the guard link_class = 0 the model's run is what Spec/LinkSpec.v demands:
+   a cycle-closing link is rejected at that call and nothing is constructed; otherwise every object is constructed
+   exactly once, every source before the object it feeds, every linked parameter receives exactly the source object /
+   attribute / compute_fn result, and compute_fn runs once, after its sources exist and before the target is built. *)
+Theorem C16_small_space_model_meets_spec :
+  forall shs ls, In shs (layouts_upto3 ++ layouts_flat4) -> In ls (link_seqs (components (decls_from 0 shs))) ->
+    case_ok nofix (decls_from 0 shs, ls) = true.
+Proof. exact small_space_ok_pinned. Qed.
+Print Assumptions C16_small_space_model_meets_spec.
+
+(* after both repairs no case of the space is left in class 1 or 2 (only the nested-self-link class 3), and the
+   repaired model meets the spec on all the others *)
+Theorem C16_small_space_fixed_model_meets_spec :
+  forall shs ls, In shs layouts_upto3 -> In ls (link_seqs (components (decls_from 0 shs))) ->
+    case_ok_fixed (decls_from 0 shs, ls) = true.
+Proof. exact small_space_ok_fixed. Qed.
+Print Assumptions C16_small_space_fixed_model_meets_spec.
+
+(* every sequence of three links over the layouts with at most two constructed objects (25,120 cases), both variants *)
+Theorem C16_small_space_three_links :
+  forall shs ls, In shs layouts_upto2 -> In ls (link_seqs3 (components (decls_from 0 shs))) ->
+    (case_ok nofix (decls_from 0 shs, ls) && case_ok_fixed (decls_from 0 shs, ls)) = true.
+Proof. exact small_space3_ok. Qed.
+Print Assumptions C16_small_space_three_links.
+
+(* ==== 5. witnesses: hypotheses are satisfiable, findings refute the unguarded statement ================================ *)
+
+Definition key (l : list str) : str := join_dot l.
+Definition mk (j : nat) (src : list str) (tgt : list str) (fn : bool) : link :=
+  {| l_id := j; l_srcs := [key src]; l_target := key (tgt ++ [param j]); l_fn := fn |}.
+
+(* a: class-typed argument with a nested object, b, c: class groups *)
+Definition ex_ds : list decl := decls_from 0 [ShSN; ShG; ShG].
+(* b.at --> a.init_args.sub.init_args.l0 ;  c --> b.l1 (through a compute_fn): chain c, b, a with a nested target *)
+Definition ex_ls : list link :=
+  [mk 0 [nm 1; s_at] [nm 0; s_init_args; s_sub; s_init_args] false; mk 1 [nm 2] [nm 1] true].
+
+Example C16_hypotheses_satisfiable :
+  let cs := components ex_ds in
+  exists o l k cS cT,
+    inst_order nofix cs ex_ls = Order o /\ enclosing_ok nofix cs ex_ls = true /\
+    In l ex_ls /\ In k (l_srcs l) /\ resolve_src cs k = Some cS /\ In cT cs /\
+    matches (c_dest cT) (l_target l) = true /\
+    map c_dest (comp_sequence cs o) = [nm 2; nm 1; nm 0] /\        (* c, then b, then a *)
+    link_class nofix ex_ds ex_ls = 0%N /\
+    link_spec_ok ex_ds ex_ls (run nofix ex_ds ex_ls) = true /\
+    length (snd (run nofix ex_ds ex_ls)) = 5.                        (* 4 constructor calls + 1 compute_fn call *)
+Proof.
+  exists [nm 2; nm 1; key [nm 0; s_init_args; s_sub]],
+         (mk 0 [nm 1; s_at] [nm 0; s_init_args; s_sub; s_init_args] false), (key [nm 1; s_at]),
+         {| c_dest := nm 1; c_kind := KGroup; c_units := [nm 1] |},
+         {| c_dest := nm 0; c_kind := KType; c_units := [key [nm 0; s_init_args; s_sub]; nm 0] |}.
+  vm_compute. repeat split; try reflexivity; auto 10.
+Qed.
+
+(* a three-link cycle a -> b -> c -> a between class groups: the third call is the one that raises *)
+Definition ex_cyc_ds : list decl := decls_from 0 [ShG; ShG; ShG].
+Definition ex_cyc_ls : list link := [mk 0 [nm 0] [nm 1] false; mk 1 [nm 1; s_at] [nm 2] false; mk 2 [nm 2] [nm 0] true].
+Example C16_cycle_example :
+  add_links nofix (components ex_cyc_ds) ex_cyc_ls = Some 2 /\
+  run nofix ex_cyc_ds ex_cyc_ls = (OLinkErr 2, []) /\
+  link_spec_ok ex_cyc_ds ex_cyc_ls (run nofix ex_cyc_ds ex_cyc_ls) = true.
+Proof. vm_compute. auto. Qed.
+
+Example C16_small_space_nontrivial :
+  length layouts_upto3 = 27 /\ length layouts_flat4 = 16 /\
+  length (link_seqs (components (decls_from 0 [ShSN; ShG]))) = 600 /\
+  In [ShSN; ShG] (layouts_upto3 ++ layouts_flat4).
+Proof. vm_compute. repeat split; try reflexivity. repeat (try (left; reflexivity); right). Qed.
+
+(* ---- finding nested-target-order (class 1) --------------------------------------------------------------------------
+   b.at --> a.init_args.sub.init_args.l0 ;  a --> c.l1   (a: class-typed argument with nested object; b, c: class groups).
+   Acyclic, accepted by link_arguments; the order puts a before b; instantiate_classes raises. *)
+Definition nto_ls : list link :=
+  [mk 0 [nm 1; s_at] [nm 0; s_init_args; s_sub; s_init_args] false; mk 1 [nm 0] [nm 2] false].
+
+Theorem C16_nested_target_order_refuted :
+  exists ds ls o,
+    let cs := components ds in
+    first_cycle (all_units ds) [] (flat_map (fun l => match spec_link (all_units ds) l with Some x => [x] | None => [] end) ls) 0 = None /\
+    add_links nofix cs ls = None /\                                  (* acyclic and accepted *)
+    inst_order nofix cs ls = Order o /\
+    map c_dest (comp_sequence cs o) = [nm 0; nm 2; nm 1] /\          (* a is built before b, which feeds a's nested object *)
+    enclosing_ok nofix cs ls = false /\ link_class nofix ds ls = 1%N /\
+    run nofix ds ls = (OExc, []) /\                                  (* AttributeError out of instantiate_classes *)
+    link_spec_ok ds ls (run nofix ds ls) = false /\
+    (* with fixes/C16-nested-target-order.patch: inside the guard, order b, a, c, and the spec holds *)
+    link_class allfix ds ls = 0%N /\ link_spec_ok ds ls (run allfix ds ls) = true.
+Proof. exists ex_ds, nto_ls. eexists. vm_compute. repeat split; reflexivity. Qed.
+Print Assumptions C16_nested_target_order_refuted.
+
+(* ---- finding source-under-group (class 2) ---------------------------------------------------------------------------
+   add_class_arguments(Parent, "b") with Parent(child: Child);  b.at --> a.l0 ;  b.child --> a.l1 *)
+Definition sug_ds : list decl := decls_from 0 [ShG; ShGN].
+Definition sug_ls : list link := [mk 0 [nm 1; s_at] [nm 0] false; mk 1 [nm 1; s_child] [nm 0] false].
+
+Theorem C16_source_under_group_refuted :
+  exists ds ls,
+    add_links nofix (components ds) ls = None /\
+    enclosing_ok nofix (components ds) ls = true /\                   (* the ORDER is right (theorem 2 applies) ... *)
+    link_class nofix ds ls = 2%N /\
+    run nofix ds ls = (OExc, []) /\                                   (* ... yet reading the source raises NSKeyError *)
+    link_spec_ok ds ls (run nofix ds ls) = false /\
+    link_class allfix ds ls = 0%N /\ link_spec_ok ds ls (run allfix ds ls) = true.
+Proof. exists sug_ds, sug_ls. vm_compute. repeat split; reflexivity. Qed.
+Print Assumptions C16_source_under_group_refuted.
+
+(* ---- finding nested-self-link (class 3) -----------------------------------------------------------------------------
+   a.at --> a.init_args.sub.init_args.l0: the attribute of a needs a, a needs its nested object, which needs a.at — a
+   cycle; link_arguments takes it for a link nested inside a and accepts it; instantiate_classes raises ValueError
+   (both variants of the code). *)
+Definition nsl_ds : list decl := decls_from 0 [ShSN].
+Definition nsl_ls : list link := [mk 0 [nm 0; s_at] [nm 0; s_init_args; s_sub; s_init_args] false].
+
+Theorem C16_nested_self_link_refuted :
+  exists ds ls,
+    link_spec_ok ds ls (OLinkErr 0, []) = true /\                     (* the property demands: rejected at call 0 *)
+    add_links nofix (components ds) ls = None /\ add_links allfix (components ds) ls = None /\
+    run nofix ds ls = (OExc, []) /\ run allfix ds ls = (OExc, []) /\
+    link_class nofix ds ls = 3%N /\ link_class allfix ds ls = 3%N.
+Proof. exists nsl_ds, nsl_ls. vm_compute. repeat split; reflexivity. Qed.
+Print Assumptions C16_nested_self_link_refuted.
